@@ -6,6 +6,7 @@ import CdnsVerif.Driver.Dec
 import CdnsVerif.Driver.Cdns
 import CdnsVerif.Driver.Exm
 import CdnsVerif.Driver.Tbl
+import CdnsVerif.Driver.Fs
 open CdnsVerif.Driver
 
 def dispatch (line : String) : String :=
@@ -18,6 +19,7 @@ def dispatch (line : String) : String :=
   | "cdns" :: rest => CdnsD.handle rest
   | "exm" :: rest => Exm.handle rest
   | "tbl" :: rest => Tbl.handle rest
+  | "fs" :: rest => FsD.handle rest
   | _ => "bad-request"
 
 partial def loop (h : IO.FS.Stream) (out : IO.FS.Stream) : IO Unit := do
